@@ -457,6 +457,8 @@ private:
   static void check_preamble_ints(uint8_t preamble_ints, uint8_t num_levels);
   static void check_serial_version(uint8_t serial_version);
   static void check_family_id(uint8_t family_id);
+  static void check_non_empty_header(uint16_t k, uint8_t num_levels, bool raw_items);
+  static void check_compactors(const std::vector<Compactor, AllocCompactor>& compactors);
 
   template<typename TT = T, typename std::enable_if<std::is_floating_point<TT>::value, int>::type = 0>
   static inline bool check_update_item(const TT& item) {
